@@ -19,3 +19,4 @@ python3 /verif/translator/aggs.py /repo /verif/lean/Tv/GenAgg.lean >/dev/null
 python3 /verif/translator/maps.py /repo /verif/lean/Tv/GenMap.lean >/dev/null
 python3 /verif/translator/drivers.py /repo /verif/lean/Tv/GenDrv.lean >/dev/null
 python3 /verif/translator/gens.py /repo /verif/lean/Tv/GenLin.lean >/dev/null
+python3 /verif/translator/parts.py /repo /verif/lean/Tv/GenPart.lean >/dev/null
